@@ -790,10 +790,99 @@ macro_rules! run_err {
     }};
 }
 
+/// "An event does not apply": the mirror is built from a subscription whose snapshot was taken away, so it starts
+/// empty while the events refer to the real contents.  Every operation is logged in the vocabulary of Robs.tla; the
+/// trace specification derives the events (Robs!Emits) and what a mirror starting empty must show - up to the first
+/// event that does not apply, where it has to report InvalidIndex.
+async fn inapplicable_scenario(seed: u64, deque: bool) {
+    let mut rng = Rng::new(seed ^ 0x1AA9);
+    let coll = if deque { "deque" } else { "vec" };
+    tr(json!({"ev": "reset", "seed": seed, "wl": "robs_err", "coll": coll, "case": "inapplicable", "buffer": 256, "max_size": 1000, "remote": false, "incr": false}));
+    let n0 = rng.range(1, 3) as usize;
+    let init: Vec<u8> = (0..n0).map(|i| 100 + i as u8).collect();
+    let nops = rng.range(3, 8);
+    let mut len = n0;
+    let mut ops = Vec::new();
+    for i in 0..nops {
+        let v = i as u8 + 1;
+        let op = match rng.below(6) {
+            0 | 1 if len > 0 => {
+                let idx = rng.below(len as u64);
+                len -= 1;
+                json!({"o": "remove", "i": idx})
+            }
+            2 => {
+                let idx = rng.below(len as u64 + 1);
+                len += 1;
+                json!({"o": "insert", "i": idx, "v": v})
+            }
+            3 if len > 0 => json!({"o": "set", "i": rng.below(len as u64), "v": v}),
+            _ => {
+                len += 1;
+                if deque { json!({"o": "push_back", "v": v}) } else { json!({"o": "push", "v": v}) }
+            }
+        };
+        ops.push(op);
+    }
+    macro_rules! go {
+        ($obs:expr, $apply:expr, $json:expr, $mjson:expr) => {{
+            let mut obs = $obs;
+            tr(json!({"ev": "e_state", "i": 0, "obs": $json(&obs)}));
+            let mut sub = obs.subscribe(256);
+            let _taken = sub.take_initial();
+            tr(json!({"ev": "e_sub_stripped"}));
+            let mut mirror = sub.mirror(1000);
+            for (i, op) in ops.iter().enumerate() {
+                tr(json!({"ev": "e_op", "op": op}));
+                $apply(&mut obs, op);
+                tr(json!({"ev": "e_state", "i": i + 1, "obs": $json(&obs)}));
+                for _ in 0..8 {
+                    settle().await;
+                }
+                match mirror.borrow_and_update().await {
+                    Ok(g) => tr(json!({"ev": "e_mirror", "contents": $mjson(&*g), "complete": true, "done": g.is_done()})),
+                    Err(e) => tr(json!({"ev": "e_mirror_err", "kind": format!("{e:?}").split('(').next().unwrap_or("").to_string()})),
+                }
+            }
+            obs.done();
+            tr(json!({"ev": "e_done"}));
+            for _ in 0..8 {
+                settle().await;
+            }
+            match mirror.borrow_and_update().await {
+                Ok(g) => tr(json!({"ev": "e_mirror", "contents": $mjson(&*g), "complete": true, "done": g.is_done()})),
+                Err(e) => tr(json!({"ev": "e_mirror_err", "kind": format!("{e:?}").split('(').next().unwrap_or("").to_string()})),
+            }
+            tr(json!({"ev": "e_detach", "contents": $mjson(&mirror.detach().await)}));
+            tr(json!({"ev": "e_end", "pending": 0}));
+            drop(obs);
+            settle().await;
+        }};
+    }
+    if deque {
+        go!(
+            ObservableVecDeque::<u8>::from(init.iter().copied().collect::<std::collections::VecDeque<u8>>()),
+            apply_deque,
+            |o: &ObservableVecDeque<u8>| json!(o.iter().copied().collect::<Vec<u8>>()),
+            |c: &std::collections::VecDeque<u8>| json!(c.iter().copied().collect::<Vec<u8>>())
+        )
+    } else {
+        go!(
+            ObservableVec::<u8>::from(init.clone()),
+            apply_vec,
+            |o: &ObservableVec<u8>| json!(o.iter().copied().collect::<Vec<u8>>()),
+            |c: &Vec<u8>| json!(c)
+        )
+    }
+}
+
 pub async fn err_scenario(seed: u64, coll: u64, case: u64) {
     let coll = ["vec", "deque", "map", "set"][(if coll >= 4 { seed % 4 } else { coll }) as usize];
-    let case = ["lag", "drop", "max_size", "cut", "plain"][(if case >= 5 { (seed / 4) % 5 } else { case }) as usize];
+    let case = ["lag", "drop", "max_size", "cut", "plain", "inapplicable"][(if case >= 6 { (seed / 4) % 6 } else { case }) as usize];
     install_spawn_policy(seed, 1, 3);
+    if case == "inapplicable" {
+        return inapplicable_scenario(seed, seed % 2 == 1).await;
+    }
     match coll {
         "vec" => run_err!(
             seed,
@@ -877,13 +966,17 @@ pub async fn list_scenario(seed: u64) {
     tr(json!({"ev": "reset", "seed": seed, "wl": "robs_list", "coll": "list", "case": "list"}));
     install_spawn_policy(seed, 1, 3);
     let mut obs = ObservableList::<u32>::new();
+    // a distributor handle (what an application hands to the parts that only subscribe) outlives the list in half
+    // of the scenarios
+    let dist = obs.distributor();
+    let keep_dist = rng.chance(1, 2);
     let n = rng.range(5, 40) as u32;
     let mut handles: Vec<tokio::task::JoinHandle<()>> = Vec::new();
     let mut next_sub = 1u64;
     let ending = rng.below(3); // 0 done, 1 dropped without done, 2 done
     for v in 1..=n {
         if next_sub <= 4 && rng.chance(1, 6) {
-            let mut sub = obs.subscribe();
+            let mut sub = if rng.chance(1, 2) { dist.subscribe() } else { obs.subscribe() };
             let id = next_sub;
             next_sub += 1;
             let mut r = Rng::new(seed * 9 + id);
@@ -912,8 +1005,17 @@ pub async fn list_scenario(seed: u64) {
         tr(json!({"ev": "l_push", "v": v}));
         yields(if rng.chance(1, 3) { rng.below(10) } else { 0 }).await;
     }
+    if !keep_dist {
+        drop(dist);
+        handles.push(spawn_d(1, async {}));
+    } else {
+        handles.push(spawn_d(1, async move {
+            yields(9000).await;
+            drop(dist);
+        }));
+    }
     if ending == 1 {
-        tr(json!({"ev": "l_drop"}));
+        tr(json!({"ev": "l_drop", "distributor_alive": keep_dist}));
         drop(obs);
     } else {
         obs.done();
